@@ -83,26 +83,6 @@ def heapLOAD (src : Array UInt8) (mode k cap : Nat) (L : Nat) (o : LoadOut) : Op
   let fin := match r.1 with | some y => (h.decref y) | none => h
   some (h.liveBlocks, rc1, fin.liveBlocks, h.fault || fin.fault)
 
-mutual
-/-- number of lines `cbor_describe` prints for a tree: one per item, one more for the data of a definite string (plus the line feeds
-a text string contains, which are written verbatim), one per map entry -/
-def descLines : Item → Nat
-  | .bytes _ => 2
-  | .text b => 2 + (b.filter (· == 10)).length
-  | .bytesI cs => 1 + 2 * cs.length
-  | .textI cs => 1 + (cs.map fun c => 2 + (c.filter (· == 10)).length).sum
-  | .array xs | .arrayI xs => 1 + descLinesL xs
-  | .map ps | .mapI ps => 1 + descLinesP ps
-  | .tag _ x => 1 + descLines x
-  | _ => 1
-def descLinesL : List Item → Nat
-  | [] => 0
-  | x :: xs => descLines x + descLinesL xs
-def descLinesP : List (Item × Item) → Nat
-  | [] => 0
-  | (k, v) :: ps => 1 + descLines k + descLines v + descLinesP ps
-end
-
 def opLOAD (src : Array UInt8) (mode k cap : Nat) (L : Nat) : String :=
   let o := load (mkOracle mode k cap) L { code := .none, position := 12345, read := 54321 } src
   let hp := heapLOAD src mode k cap L o
@@ -122,7 +102,6 @@ def opLOAD (src : Array UInt8) (mode k cap : Nat) (L : Nat) : String :=
         let r2 := serInto x (sz - 1)
         s1 ++ s!" sern1={r2.1}"
       else ""
-    let tail := tail ++ s!" desc={descLines x}"
     let (live, rc1, fin) := match hp with | some (l, r, f, _) => (l, if r then 1 else 0, f) | none => (blocks x, 1, 0)
     s!"OK {fmtItem x} code={codeName o.result.code} read={o.result.read} reqs={o.reqs} live={live} rc1={rc1} filled=1 size={sz}{tail} copy=ok final={fin}{flt}"
 
